@@ -157,7 +157,11 @@ def run_encoders(ck):
     for c in sorted(panics, key=case_size)[:1]:
         ck.violation({"property": PID, "kind": "panic in encoder", "case": strip_case(c), "panic": c["panic"],
                       "replay": "bin/check C15 --replay <this file>"})
-    ok_cases = [c for c in cases if not c.get("panic")]
+    skipped = [c for c in cases if c.get("skip")]
+    ck.extra["unobserved_cases"] = len(skipped)
+    ck.obligation("at most 5% of the cases could not be observed (Tail frames on a loaded machine)", len(skipped) * 20 <= len(cases),
+                  "%d of %d: %s" % (len(skipped), len(cases), [c["skip"] for c in skipped[:3]]))
+    ok_cases = [c for c in cases if not c.get("panic") and not c.get("skip")]
 
     mism, viol, unread = [], [], []
     shard = 400
